@@ -34,6 +34,8 @@ type GNMIDevice struct {
 	GetNotifs []*gnmi.Notification
 	// Gets counts the Get rpcs received
 	Gets int
+	// Onces counts the ONCE subscriptions served
+	Onces int
 
 	subs   map[int]chan *gnmi.SubscribeResponse
 	subSeq int
@@ -313,6 +315,12 @@ func (d *GNMIDevice) NumSubscribers() int {
 	return len(d.subs)
 }
 
+func (d *GNMIDevice) NumOnces() int {
+	d.mu.Lock()
+	defer d.mu.Unlock()
+	return d.Onces
+}
+
 func (d *GNMIDevice) NumGets() int {
 	d.mu.Lock()
 	defer d.mu.Unlock()
@@ -328,6 +336,7 @@ func (d *GNMIDevice) Subscribe(stream gnmi.GNMI_SubscribeServer) error {
 	if req.GetSubscribe().GetMode() == gnmi.SubscriptionList_ONCE {
 		d.mu.Lock()
 		ns := d.GetNotifs
+		d.Onces++
 		d.mu.Unlock()
 		for _, n := range ns {
 			if err := stream.Send(&gnmi.SubscribeResponse{Response: &gnmi.SubscribeResponse_Update{Update: n}}); err != nil {
